@@ -157,7 +157,7 @@ def rord (c : RCell) : Bool := c.info.kind == kOrdinary
 def parseDag (dag : String) : Option (Array (Option RCell)) :=
   if dag == "-" then some #[] else ((dag.splitOn "|").mapM parseNode).map evalRDag
 
-/-- `vmser <dag|-> <stack>` → `ok <cell hash>` | `err` : model of `VmStack.serialize(stack)` -/
+/-- `vmser <dag|-> <stack>` → `ok <cell hash> <caller's stack afterwards>` | `err` : model of `VmStack.serialize(stack)` -/
 def handleSer (dag st : String) : String :=
   match parseDag dag with
   | none => "bad-op"
@@ -165,9 +165,9 @@ def handleSer (dag st : String) : String :=
     match parseStack ctx st with
     | none => "bad-op"
     | some vs =>
-      match serialize mkCell vs with
-      | some c => s!"ok {c.hashHex}"
-      | none => "err"
+      match serializeSt false mkCell vs with
+      | (some c, post) => s!"ok {c.hashHex} {showStack post}"
+      | (none, _) => "err"
 
 /-- `vmdeser <dag> <node>` → `ok <stack>` | `err` : model of `VmStack.deserialize(cell.begin_parse())` -/
 def handleDeser (dag node : String) : String :=
